@@ -366,7 +366,7 @@ def finish(prop, tier, seed, meta, results, wall):
             'obligations': n_obl, 'discharged': n_dis, 'obligations_by_label': oblig,
             'functions_encoded': sorted(functions), 'bounds': meta.get('bounds', {}).get(tier, meta.get('bounds')),
             'outside_bounds': meta.get('outside', ''), 'stubs': meta.get('stubs', []),
-            'per_configuration': per_cfg if len(per_cfg) <= 80 else per_cfg[:80],
+            'per_configuration': per_cfg if len(per_cfg) <= 1500 else sorted(per_cfg, key=lambda c: -c['paths'])[:1500],
             'inconclusive': inconclusive[:20],
             'known_findings_matched': [known_open[k]['what'] for k in known_hit],
             **({'kernels_crosshair': meta['kernels']} if meta.get('kernels') else {}),
